@@ -10,6 +10,7 @@ mod c05;
 mod c06;
 mod c07;
 mod c11;
+mod c18;
 mod guard;
 mod c10;
 mod c16;
@@ -35,6 +36,7 @@ fn main() {
         "C10" => run_prop(c10::C10, &opts),
         "C11" => run_prop(c11::C11, &opts),
         "C16" => run_prop(c16::C16, &opts),
+        "C18" => c18::run(&opts),
         o => {
             eprintln!("unknown property {o}");
             std::process::exit(2);
